@@ -603,3 +603,13 @@ func (u *Unit) knownFalse(t *Term) bool {
 	u.kfMemo[t.S] = kfEntry{res: res, scope: cur}
 	return res
 }
+
+// provableQ: t follows from the path condition including the quantified
+// hypotheses (no obligation is recorded).
+func (u *Unit) provableQ(t *Term) bool {
+	if t.IsBool {
+		return t.B
+	}
+	r, _ := u.S.CheckGoalT(t, nil, 1500)
+	return r == "unsat"
+}
